@@ -1,7 +1,10 @@
 package main
 
 import (
+	"context"
+	"encoding/json"
 	"flag"
+	"os/exec"
 	"fmt"
 	"os"
 	"path/filepath"
@@ -179,7 +182,9 @@ func cmdRun(args []string) int {
 	}
 	solveObligations(all, cfg)
 	all = append(all, enumObls...)
+	bounded := runBounded(eng, o, work)
 	tSolve := time.Since(t0) - tLoad - tGen
+	eng.boundedResults = bounded
 	code := report(eng, o, results, all, tLoad, tGen, tSolve, t0, work)
 	if !o.keep {
 		os.RemoveAll(work)
@@ -197,4 +202,74 @@ func hasProp(c *Contract, p string) bool {
 		}
 	}
 	return false
+}
+
+// ---------------------------------------------------------------------------
+// Bounded stand-ins: parts of a property that no contract within reach decides
+// are checked by running the real code over a stated, bounded input space (a Go
+// test kept under /verif/bounded/<property>/, injected by overlay). They are
+// labelled bounded and never counted as discharged obligations.
+// ---------------------------------------------------------------------------
+
+type boundedResult struct {
+	Name   string
+	Bound  string
+	Status string // held | violated | error
+	Output string
+	Secs   float64
+	Cases  string
+}
+
+func runBounded(eng *Engine, o runOpts, work string) []boundedResult {
+	dir := filepath.Join(o.verif, "bounded", o.prop)
+	data, err := os.ReadFile(filepath.Join(dir, "meta.json"))
+	if err != nil {
+		return nil
+	}
+	var meta struct{ Pkg, Run, Name, Bound string }
+	if json.Unmarshal(data, &meta) != nil {
+		return []boundedResult{{Name: "bounded:" + o.prop, Status: "error", Output: "meta.json unreadable"}}
+	}
+	ov := map[string]map[string]string{"Replace": {}}
+	ents, _ := os.ReadDir(dir)
+	for _, e := range ents {
+		if strings.HasSuffix(e.Name(), "_test.go") {
+			ov["Replace"][filepath.Join(o.repo, meta.Pkg, "zz_verif_"+e.Name())] = filepath.Join(dir, e.Name())
+		}
+	}
+	for p, alt := range eng.extraOverlay {
+		ov["Replace"][p] = alt
+	}
+	ovFile := filepath.Join(work, "bounded_overlay.json")
+	od, _ := json.Marshal(ov)
+	os.WriteFile(ovFile, od, 0o644)
+	t0 := time.Now()
+	ctx, cancel := context.WithTimeout(context.Background(), 300*time.Second)
+	defer cancel()
+	cmd := exec.CommandContext(ctx, "go", "test", "-overlay", ovFile, "-vet=off", "-timeout", "240s", "-count=1", "-run", "^"+meta.Run+"$", "-v", "./"+meta.Pkg)
+	cmd.Dir = o.repo
+	cmd.Env = append(os.Environ(), "GOFLAGS=-mod=mod", "GOPROXY=off", "GOSUMDB=off", "GOTOOLCHAIN=local", fmt.Sprintf("VERIF_SEED=%d", o.seed), "VERIF_TIER="+o.tier)
+	outB, _ := cmd.CombinedOutput()
+	out := string(outB)
+	r := boundedResult{Name: meta.Name, Bound: meta.Bound, Secs: time.Since(t0).Seconds()}
+	switch {
+	case strings.Contains(out, "VERIF-BOUNDED-FAIL"):
+		r.Status = "violated"
+		for _, l := range strings.Split(out, "\n") {
+			if strings.Contains(l, "VERIF-BOUNDED-FAIL") {
+				r.Output = strings.TrimSpace(l)
+			}
+		}
+	case strings.Contains(out, "VERIF-BOUNDED-OK"):
+		r.Status = "held"
+		for _, l := range strings.Split(out, "\n") {
+			if strings.Contains(l, "VERIF-BOUNDED-OK") {
+				r.Cases = strings.TrimSpace(strings.TrimPrefix(strings.TrimSpace(l), "VERIF-BOUNDED-OK"))
+			}
+		}
+	default:
+		r.Status = "error"
+		r.Output = truncate(out, 1500)
+	}
+	return []boundedResult{r}
 }
